@@ -71,6 +71,7 @@ struct Fail
 };
 #define REQ(cond, rule, msg) do { if(!(cond)) { std::ostringstream _o; _o << msg; f.set(rule, _o.str()); return; } } while(0)
 
+static int g_fullLevels = 2;                // levels (operations already applied) at which the full alphabet is used
 static Ctx* g_c = nullptr;                 // context of the running case (for observation counters inside the systems)
 static void observe(const std::string& k, uint64_t d = 1) { if(g_c) g_c->count(k, d); }
 
@@ -169,9 +170,10 @@ struct Explorer
    int gateDepth = 2;
    std::unordered_set<uint64_t> seen;
 
-   static std::string sig(const std::string& rule, const SYS& s, const Op& op)
+   // the tag (necessary condition of the operation instance) is taken from the state BEFORE the operation
+   static std::string sig(const std::string& rule, const std::string& tag, const Op& op)
    {
-      return std::string(SYS::name()) + ":" + rule + ":" + SYS::opname(op.k) + s.tag(op);
+      return std::string(SYS::name()) + ":" + rule + ":" + SYS::opname(op.k) + tag;
    }
    static std::string pretty(int init, const std::vector<Op>& seq)
    {
@@ -197,6 +199,7 @@ struct Explorer
       const Op& last = seq[n - 1];
       uint64_t before = s.digest();
       int g = s.gate(last);
+      const std::string tg = s.tag(last);
       std::string cs = seq_str(P, init, seq);
       if(g != 0 && gate_open(P, g))
       {
@@ -207,7 +210,7 @@ struct Explorer
          c.count(P + ".sequences");
          ChildResult r = in_child([&](Fail & ff) { s.apply(last, ff); if(!ff.bad()) s.check(ff); });
          if(r.bad)
-            c.violation(sig(r.rule, s, last), cs, r.detail + " | " + pretty(init, seq));
+            c.violation(sig(r.rule, tg, last), cs, r.detail + " | " + pretty(init, seq));
          else
             c.count(P + ".gated_sequences_clean_in_child");
          return 7;
@@ -235,14 +238,14 @@ struct Explorer
       }
       if(f.bad())
       {
-         if(recordSelf) c.violation(sig(f.rule, s, last), cs, f.detail + " | " + pretty(init, seq));
+         if(recordSelf) c.violation(sig(f.rule, tg, last), cs, f.detail + " | " + pretty(init, seq));
          return 13;
       }
       uint64_t after = s.digest();
       if(recordSelf)
       {
          if(after != before) { c.count("modifying_sequences"); c.count(P + ".modifying_sequences"); }
-         if(seen.insert(after).second)
+         if(seen.size() < 20000 && seen.insert(after).second)
          {
             char b[40];
             snprintf(b, sizeof b, "%s%016llx", SYS::name(), (unsigned long long)after);
@@ -437,7 +440,7 @@ struct SetSys
    void ops(std::vector<Op>& o, int level) const
    {
       int n = m.n();
-      bool full = level < 2;
+      bool full = level < g_fullLevels;
       if(n < max) { o.push_back(Op(0)); o.push_back(Op(2)); if(full) { o.push_back(Op(1)); o.push_back(Op(3)); } }
       if(n + 2 <= max) { o.push_back(Op(4)); o.push_back(Op(6)); if(full) { o.push_back(Op(5)); o.push_back(Op(7)); } }
       if(full) for(int i = 0; i <= n; ++i) o.push_back(Op(8, i));
@@ -789,7 +792,7 @@ struct SVSetSys
    void ops(std::vector<Op>& o, int level) const
    {
       int n = m.n();
-      bool full = level < 2;
+      bool full = level < g_fullLevels;
       bool room = n < 5;
       int last = n - 1, mid = n / 2;
       std::set<int> pos;
@@ -1190,7 +1193,7 @@ struct LPSetSys
    void ops(std::vector<Op>& o, int level) const
    {
       int n = m.n();
-      bool full = level < 2;
+      bool full = level < g_fullLevels;
       int last = n - 1, mid = n / 2;
       std::set<int> pos;
       if(n > 0) { pos.insert(0); pos.insert(last); if(full) pos.insert(mid); }
@@ -1457,7 +1460,7 @@ struct IdxSys
    void ops(std::vector<Op>& o, int level) const
    {
       int n = (int)m.size();
-      bool full = level < 2;
+      bool full = level < g_fullLevels;
       bool room1 = DYN || n + 1 <= s->max(), room2 = DYN || n + 2 <= s->max();
       auto ab = absent();
       if(room1 && !ab.empty())
@@ -1486,7 +1489,7 @@ struct IdxSys
    int gate(const Op& op) const { return (op.k == 4 && op.b == (int)m.size() - 1) ? 1 : 0; }   // IdxSet::remove(n,m) up to the last index
    std::string tag(const Op& op) const { return (op.k == 4) ? (op.b == (int)m.size() - 1 ? "|range-reaches-last-index" : "|inner-range") : ""; }
 
-   void other(IdxSet& o, int cnt, std::vector<int>& vals) { for(int j = 0; j < cnt; ++j) { int v = (j * 2 + 1) % U; o.addIdx(v); vals.push_back(v); } }
+   void other(IdxSet& o, int cnt, std::vector<int>& vals) { for(int j = 0; j < cnt; ++j) { int v = (j * 5 + 1) % U; o.addIdx(v); vals.push_back(v); } }
 
    void apply(const Op& op, Fail& f)
    {
@@ -1625,7 +1628,7 @@ struct NameSys
    void ops(std::vector<Op>& o, int level) const
    {
       int n = m.n();
-      bool full = level < 2;
+      bool full = level < g_fullLevels;
       for(int u = 0; u < 5; ++u)
       {
          bool present = keyOf(U(u)) >= 0;
@@ -1810,7 +1813,7 @@ struct HashSys
    HashSys(const HashSys&) = delete;
    void ops(std::vector<Op>& o, int level) const
    {
-      bool full = level < 3;
+      bool full = level < g_fullLevels + 1;
       for(int k = 0; k < 6; ++k)
       {
          if(!m.count(k)) { if(full || k < 4) o.push_back(Op(0, k)); }
@@ -1907,7 +1910,7 @@ struct ArrSys
    void ops(std::vector<Op>& o, int level) const
    {
       int n = (int)m.size();
-      bool full = level < 2;
+      bool full = level < g_fullLevels;
       std::set<int> ipos = {0, n};
       if(full) ipos.insert(n / 2);
       if(n < 7)
@@ -2078,7 +2081,7 @@ struct ListSys
    void ops(std::vector<Op>& o, int level) const
    {
       int n = (int)m.size();
-      bool full = level < 3;
+      bool full = level < g_fullLevels + 1;
       auto fr = freeIds();
       std::set<int> pos;
       if(n > 0) { pos.insert(0); pos.insert(n - 1); if(full) pos.insert(n / 2); }
@@ -2215,7 +2218,7 @@ template <> struct Num<Rational>
 static int digit(int p, int i) { for(int k = 0; k < i; ++k) p /= 3; return p % 3; }
 static std::string d3str(const D3& d) { return "(" + d[0].get_str() + "," + d[1].get_str() + "," + d[2].get_str() + ")"; }
 
-struct SRep { int p; std::vector<int> order; bool sorted; };           // sparse: pattern + order of the nonzeros
+struct SRep { int p; std::vector<int> order; bool sorted; bool zero; };  // sparse: pattern + order of the stored entries (zero: one explicit zero entry is stored last)
 struct SSRep { int p; std::vector<int> order; bool setup, sorted; };   // semi-sparse: pattern + index order (setup) or not set up
 static std::vector<SRep> g_srep;
 static std::vector<SSRep> g_ssrep;
@@ -2229,14 +2232,24 @@ static void build_reps()
       do
       {
          bool sorted = std::is_sorted(perm.begin(), perm.end());
-         g_srep.push_back({p, perm, sorted});
+         g_srep.push_back({p, perm, sorted, false});
          g_ssrep.push_back({p, perm, true, sorted});
       }
       while(std::next_permutation(perm.begin(), perm.end()));
    }
    for(int p = 0; p < 27; ++p) g_ssrep.push_back({p, {}, false, true});
+   // sparse vectors that store one explicit zero (as assignArray() and add(int) produce them): nonzeros ascending, the zero last
+   for(int p = 0; p < 27; ++p)
+   {
+      std::vector<int> st;
+      int z = -1;
+      for(int i = 0; i < 3; ++i) { if(digit(p, i) != 1) st.push_back(i); else if(z < 0) z = i; }
+      if(z < 0) continue;
+      st.push_back(z);
+      g_srep.push_back({p, st, std::is_sorted(st.begin(), st.end()), true});
+   }
 }
-static const char* stag(const SRep& r) { return r.sorted ? "sorted" : "unsorted"; }
+static const char* stag(const SRep& r) { return r.zero ? (r.sorted ? "sorted+explicit-zero" : "unsorted+explicit-zero") : r.sorted ? "sorted" : "unsorted"; }
 static const char* sstag(const SSRep& r) { return !r.setup ? "notsetup" : r.sorted ? "setup-sorted" : "setup-unsorted"; }
 
 template <class R>
@@ -2251,7 +2264,16 @@ struct Alg
 
    static D3 dense(int p) { D3 d; for(int i = 0; i < 3; ++i) d[i] = N::qletter(digit(p, i)); return d; }
    static V mkV(int p) { V v(3); for(int i = 0; i < 3; ++i) v[i] = N::letter(digit(p, i)); return v; }
-   static DSV mkSV(const SRep& r, int cap = 4) { DSV d(cap); for(int i : r.order) d.add(i, N::letter(digit(r.p, i))); return d; }
+   static DSV mkSV(const SRep& r, int cap = 4)
+   {
+      DSV d(cap);
+      for(int i : r.order)
+      {
+         if(digit(r.p, i) != 1) d.add(i, N::letter(digit(r.p, i)));
+         else { d.add(i); d.value(d.size() - 1) = R(0); }          // explicit zero entry
+      }
+      return d;
+   }
    static SSV mkSSV(const SSRep& r)
    {
       SSV x(3, g_tol);
@@ -2346,7 +2368,7 @@ struct Alg
       add("V.assign(SV)", NV, NS, 1, [](Ctx & c, const std::string & cs, int i, int j, int)
       {
          V v = mkV(i); DSV s = mkSV(g_srep[j]); v.assign(static_cast<const SV&>(s));
-         D3 a = dense(i), b = dense(g_srep[j].p), w; for(int t = 0; t < 3; ++t) w[t] = b[t] != 0 ? b[t] : a[t];
+         D3 a = dense(i), b = dense(g_srep[j].p), w = a; for(int t : g_srep[j].order) w[t] = b[t];      // every stored entry is assigned, the rest is kept
          D3 g; std::string y; bool ok = dV(v, g, y); expV(c, "V.assign(SV)", T2(0, stag(g_srep[j])), cs, ok, y, g, w);
       });
       add("V.assign(SSV)", NV, NX, 1, [](Ctx & c, const std::string & cs, int i, int j, int)
@@ -2422,7 +2444,7 @@ struct Alg
       add("SV.queries", NS, 1, 1, [](Ctx & c, const std::string & cs, int i, int, int)
       {
          const SRep& r = g_srep[i]; DSV s = mkSV(r); D3 a = dense(r.p); Q mx = 0, mn = -1; int dim = 0;
-         for(int t = 0; t < 3; ++t) if(a[t] != 0) { if(abs(a[t]) > mx) mx = abs(a[t]); if(mn < 0 || abs(a[t]) < mn) mn = abs(a[t]); dim = t + 1; }
+         for(int t : r.order) { if(abs(a[t]) > mx) mx = abs(a[t]); if(mn < 0 || abs(a[t]) < mn) mn = abs(a[t]); dim = std::max(dim, t + 1); }     // over the stored entries, as documented
          std::string tg = T2(stag(r), 0);
          expS(c, "SV.maxAbs()", tg, cs, N::q(s.maxAbs()), mx);
          if(mn >= 0) expS(c, "SV.minAbs()", tg, cs, N::q(s.minAbs()), mn);
@@ -2791,8 +2813,9 @@ int main(int argc, char** argv)
    o.watchdog_s = 180;
    // depth of the history enumeration per class: thorough = the depth of DESIGN.md, quick = one less; the AddressSanitizer
    // flavour runs the same enumerators one level shallower (allocation-heavy code is ~10x slower under ASan)
-   int dd = (thorough ? 0 : -1) + (ASAN ? -1 : 0);
+   int dd = (thorough ? 0 : -1) + (ASAN ? -1 : 0) + atoi(args.get("dd", "0").c_str());
    int gd = thorough ? 3 : 2;
+   g_fullLevels = atoi(args.get("full", (thorough && !ASAN) ? "3" : "2").c_str());
    auto D = [&](int d) { return std::max(1, d + dd); };
    int only = -1;
    std::string sel = args.get("phase");
